@@ -16,6 +16,7 @@ from lib.framework import Check, enc, dec, time_limit
 from gen import c03_productions, relib
 from harness import c03_content as C
 from harness import c03_sheets as S
+from harness import c03_canon as K
 
 PATTERN_NAMES = ['STRING', 'URI', 'IDENT', 'COMMENT', 'unicodesub', 'stringsub', 'simpleescapes', 'forbidden_in_uri']
 
@@ -40,7 +41,9 @@ class C03(Check):
     id = 'C03'
     props_module = 'CssVerif.Props.C03'
     driver_exe = 'drv_c03'
-    sources = ('cssutils/serialize.py', 'cssutils/helper.py', 'cssutils/tokenize2.py', 'cssutils/cssproductions.py',
+    sources = ('cssutils/serialize.py', 'cssutils/css/cssstylesheet.py', 'cssutils/css/cssstylerule.py',
+               'cssutils/css/cssstyledeclaration.py', 'cssutils/css/property.py', 'cssutils/css/cssmediarule.py',
+               'cssutils/css/csspagerule.py', 'cssutils/css/marginrule.py', 'cssutils/css/cssfontfacerule.py', 'cssutils/helper.py', 'cssutils/tokenize2.py', 'cssutils/cssproductions.py',
                'cssutils/util.py', 'cssutils/css/value.py', 'cssutils/css/selector.py', 'cssutils/css/csscomment.py',
                'cssutils/css/cssimportrule.py', 'cssutils/css/cssnamespacerule.py', 'cssutils/css/csscharsetrule.py')
     trusted_base = (
@@ -49,6 +52,9 @@ class C03(Check):
         'translator tools/gen/c03_productions.py (+ tools/gen/relib.py): the STRING/URI/IDENT/COMMENT productions and '
         'the unicodesub / cleanstring / _simpleescapes / _match_forbidden_in_uri patterns as Re terms, regenerated '
         'from the source on every run and compared with CPython\'s compiled patterns on the content stream',
+        'sheet level: hand model lean/CssVerif/Model/SheetCanon.lean of the serializer\'s layout (token level) on top of '
+        'C02\'s structure kernel (Model/Struct.lean, AtRules.lean, SheetSpec.lean, tied by C02), tied on every run by the '
+        'canon stream: driver tokens = the real tokenizer on the real cssText of generated spelled sheets',
     )
     assumptions = (
         'sre-faithfulness of Re.first for the supported regex subset (checked on every run against the compiled patterns)',
@@ -58,7 +64,10 @@ class C03(Check):
     rule = ('content stream: token texts built from plain characters of every class the code distinguishes (ASCII, '
             'controls, non-ASCII, astral, lone surrogate, all white space kinds), escaped backslashes, hex escapes of 33 '
             'code points x 1-6 digits x 7 terminators, simple escapes, escaped line breaks, both quotes; '
-            'non-trivial = distinct token text / value containing a backslash, a quote, a line break or a non-ASCII character')
+            'non-trivial = distinct token text / value containing a backslash, a quote, a line break or a non-ASCII character; '
+            'canon stream: abstract sheets of the C02 generator (all rule kinds, empty rules included) x structure-level '
+            'spellings (white space, comments in gaps, letter case, simple escapes, quote styles, stand-alone semicolons), '
+            'opaque parts in the form the implementation\'s own sub-serializers give them')
 
     # ------------------------------------------------------------------------------------------
     def translate(self, ctx):
@@ -80,21 +89,32 @@ class C03(Check):
         cssutils = quiet()
         try:
             rng = ctx.sub_rng('c03')
-            ctx.phase(self.corr_patterns, ctx, cssutils, rng)
-            ctx.phase(self.corr_functions, ctx, cssutils, rng)
-            ctx.phase(self.corr_safe, ctx, cssutils, rng)
+            import time
+            times = {}
+
+            def ph(fn, *a):
+                t0 = time.time()
+                ctx.phase(fn, *a)
+                times[fn.__name__] = round(time.time() - t0, 1)
+            ph(self.corr_patterns, ctx, cssutils, rng)
+            ph(self.corr_functions, ctx, cssutils, rng)
+            ph(self.corr_safe, ctx, cssutils, rng)
             self.setup_impl(cssutils)
-            ctx.phase(self.corr_image, ctx, cssutils, rng)
-            ctx.phase(self.oracle_corpus, ctx, cssutils)
-            ctx.phase(self.oracle_structural, ctx, cssutils, rng)
-            ctx.phase(self.oracle_namespaces, ctx, cssutils, rng)
-            ctx.phase(self.oracle_media, ctx, cssutils, rng)
-            ctx.phase(self.oracle_setters, ctx, cssutils, rng)
-            ctx.phase(self.oracle_encodings, ctx, cssutils, rng)
-            ctx.phase(self.oracle_tokenpairs, ctx, cssutils, rng)
-            ctx.phase(self.slots, ctx, cssutils, rng)
-            ctx.phase(self.oracle_composite, ctx, cssutils, rng)
-            ctx.phase(self.oracle_shipped, ctx, cssutils)
+            ph(self.corr_image, ctx, cssutils, rng)
+            ph(self.corr_canon, ctx, cssutils)
+            ph(self.oracle_corpus, ctx, cssutils)
+            ph(self.oracle_structural, ctx, cssutils, rng)
+            ph(self.oracle_namespaces, ctx, cssutils, rng)
+            ph(self.oracle_media, ctx, cssutils, rng)
+            ph(self.oracle_setters, ctx, cssutils, rng)
+            ph(self.oracle_encodings, ctx, cssutils, rng)
+            ph(self.oracle_tokenpairs, ctx, cssutils, rng)
+            ph(self.slots, ctx, cssutils, rng)
+            ph(self.oracle_composite, ctx, cssutils, rng)
+            ph(self.oracle_shipped, ctx, cssutils)
+            ctx.notes['phase-seconds'] = times
+            if os.environ.get('C03_TIMES'):
+                print('phase seconds:', times)
         finally:
             cssutils.ser.prefs.useDefaults()
 
@@ -103,6 +123,10 @@ class C03(Check):
         S.init(cssutils)
         self.parser = cssutils.CSSParser(fetcher=lambda url: (None, ''))
         self.tk = tokenize2.Tokenizer()
+
+    # -- sheet level: `serialise` of Model/SheetCanon.lean vs the tokens of the real cssText ----------------
+    def corr_canon(self, ctx, cssutils):
+        K.run(ctx, cssutils)
 
     # -- (1) generated patterns vs compiled patterns vs hand recognisers ------------------------------
     def compiled(self, cssutils):
@@ -410,8 +434,58 @@ class C03(Check):
                     detail['dom_first_difference'] = [repr(a)[:800], repr(b)[:800]]
                     break
             detail['dom_rule_counts'] = [len(p1), len(p2)]
+        if known is None and variant == 'default' and isinstance(witness, dict) and 'css' in witness and \
+                not any(witness.get(k) for k in ('op', 'ops', 'edits', 'edits_applied', 'node', 'file', 'serialised_after_edits')):
+            # a source text alone fails outside every known region: report the smallest text found that still does
+            small = self.shrink_css(cssutils, witness['css'], fix_ok)
+            if small is not None and len(small) < len(witness['css']):
+                detail['original_css'] = witness['css'][:2000]
+                witness = dict(witness, css=small, shrunk=True)
         ctx.violate(self.CLAUSE_FIX if not fix_ok else self.CLAUSE_DOM, witness, detail, known=known)
         return False
+
+    def fails_alone(self, cssutils, css, fix_was_ok):
+        """does `css` (a source text) break the same clause, outside every known region?"""
+        try:
+            with time_limit(10):
+                sheet = self.parser.parseString(css)
+                if self.regions_of(cssutils, [css], encoding=sheet.encoding) or self.dom_regions(cssutils, sheet):
+                    return False
+                t1, t2, p1, p2 = self.roundtrip(cssutils, sheet)
+        except Exception:
+            return False
+        return (t1 == t2) == fix_was_ok and not (t1 == t2 and p1 == p2)
+
+    def shrink_css(self, cssutils, css, fix_was_ok, trials=120, seconds=8.0):
+        """delta debugging over the token texts of `css` (characters when the tokens do not tile the text)"""
+        import time
+        t0 = time.time()
+        try:
+            toks = list(self.tk.tokenize(css, fullsheet=True))
+            pieces = S.raw_texts(css, toks[:-1] if toks and toks[-1][0] == 'EOF' else toks)
+        except Exception:
+            pieces = None
+        if not pieces:
+            pieces = list(css)
+        if not self.fails_alone(cssutils, ''.join(pieces), fix_was_ok):
+            return None
+        n = 2
+        while len(pieces) >= 2 and trials > 0 and time.time() - t0 < seconds:
+            size = max(1, len(pieces) // n)
+            removed = False
+            for start in range(0, len(pieces), size):
+                cand = pieces[:start] + pieces[start + size:]
+                trials -= 1
+                if cand and self.fails_alone(cssutils, ''.join(cand), fix_was_ok):
+                    pieces, n, removed = cand, max(n - 1, 2), True
+                    break
+                if trials <= 0 or time.time() - t0 >= seconds:
+                    break
+            if not removed:
+                if size == 1:
+                    break
+                n = min(len(pieces), n * 2)
+        return ''.join(pieces)
 
     def regions_of(self, cssutils, texts, raws=(), encoding='utf-8', ident_form='either', edit_texts=()):
         regs = set()
@@ -454,31 +528,7 @@ class C03(Check):
                                     (item.type.endswith('type-selector') or item.type.endswith('universal')):
                                 # parsed before the sheet had a default namespace: written `|name`
                                 regs.add('C03-default-namespace-after-selectors')
-                if r.type == S.RULE.IMPORT_RULE and r.name is not None and not any(i.type == 'name' for i in r.seq):
-                    # the name setter only replaces an existing name item
-                    regs.add('C03-import-name-setter')
-                if r.type in (S.RULE.IMPORT_RULE, S.RULE.MEDIA_RULE):
-                    for it in r.media:
-                        mt = getattr(it.value, 'mediaText', '')
-                        if mt.count('(') != mt.count(')'):
-                            # MediaQuery.mediaType = x on a query that starts with an expression overwrites its "("
-                            regs.add('C03-mediaquery-mediatype-setter')
                 if r.type == S.RULE.PAGE_RULE:
-                    st, hit = 'start', False
-                    for t in self.tk.tokenize(r.selectorText):
-                        if t[0] == 'S':
-                            continue
-                        if t[0] == 'IDENT' and st == 'start':
-                            st = 'named'
-                        elif t[0] == 'COMMENT' and st in ('named', 'named-comment'):
-                            st = 'named-comment'
-                        elif t[0] == 'CHAR' and t[1] == ':' and st == 'named-comment':
-                            hit = True
-                        elif t[0] != 'COMMENT':
-                            st = 'other'
-                    if hit:
-                        # a comment between page name and pseudo-page gets a space behind it
-                        regs.add('C03-page-selector-comment')
                     margins = [m.margin for m in r.cssRules]
                     if len(set(margins)) != len(margins):
                         # add() / insertRule() do not merge a second block for the same margin box, the parser does
@@ -840,9 +890,15 @@ class C03(Check):
             for pat in ('*.css', os.path.join('*', '*.css')):
                 files += sorted(glob.glob(os.path.join(ctx.repo, base, pat)))
         ctx.notes['shipped_sheets'] = len(files)
+        seen = set()
         for f in files:
             data = open(f, 'rb').read()
             rel = os.path.relpath(f, ctx.repo)
+            if data in seen:
+                # sheets/ and cssutils/tests/sheets/ hold the same files: identical bytes give the identical run
+                ctx.count('shipped:same-bytes-as-checked')
+                continue
+            seen.add(data)
             try:
                 with time_limit(120):
                     sheet = self.parser.parseString(data, href='file://' + f)
